@@ -69,7 +69,7 @@ fn enum_from(
     }
 
     let input_type = &input.ident;
-    let input_type_name = input_type.to_string();
+    let input_type_name = input_type.unraw().to_string();
 
     let mut cases = vec![];
 
